@@ -19,7 +19,7 @@ func init() {
 		NotDecided: "byte identity of source and destination stores; packfile splitting arithmetic.",
 	}
 	props["C13"] = &propSpec{
-		Rules:      []string{"C13-a", "C13-b", "C13-c", "C13-g", "C13-h", "C13-i", "C07-b", "C09-a", "C09-g", "C12-e", "C15-c"},
+		Rules:      []string{"C13-a", "C13-b", "C13-c", "C13-g", "C13-h", "C13-i", "C07-b", "C09-a", "C09-g", "C12-e", "C15-c", "C13-j"},
 		Decides:    "Decides write-order necessary conditions of crash consistency on every path: no derived-index write after the table object (the table object is the commit point); the table is written only after the worker join and an empty error channel; every ref written by a function that saves a commit carries the sum returned by SaveCommit and lies behind its success edge; SQL multi-statement writes run on one *sql.Tx which commits only on success; plus the shared ordering rules of C07-b (no commit before its parents), C09-a (fetch refs after objects) and C12-e (prune deletes commits last). Does not enumerate crash points, does not decide repeatability; store atomicity is trusted. Also decided: SaveTable happens only after a successful table-index write (never skipped); prune deletes a table object before its derived objects; every successful fetch return has saved the refs.",
 		NotDecided: "repeatability of the operation after a crash; effects of a crash inside a multi-branch pull; atomicity of the underlying stores (trusted).",
 	}
